@@ -79,6 +79,9 @@ def run(ctx):
                    "segments enter `segments`")
     ctx.rule("R3", "flow-control report: largest_offset is written only as max(largest_offset, ..) and recv returns "
                    "largest_offset - (largest_offset at entry)")
+    ctx.rule("R6", "one coordinate system: once the already-read prefix has been cut off, the fragment's original `offset` is not used "
+                   "again — inside the placement loop every position is derived from the cursor `start` (which corresponds to the "
+                   "remaining `data`)")
     ctx.rule("R4", "contiguity gate: readers take data out of a segment only under `segment.offset == nread`")
     ctx.rule("R5", "read cursor coupling: nread (and the offset of a partially read segment) advance by exactly the length handed out")
     rb = ctx.anchor("R1", RB + "::recv")
@@ -147,6 +150,33 @@ def run(ctx):
         ctx.ob("R3", "%s|returns largest_offset - largest_offset@entry" % rb.short, ret_ok and prev_ok, rb.where(),
                "return value is a difference with largest_offset: %s; the subtrahend is read from largest_offset before every write: %s — "
                "this is the amount the stream and connection flow controllers are charged with" % (ret_ok, prev_ok))
+    if rb:
+        # ------------------------------------------------------------ R6
+        heads = sorted(set(v for u in rb.live_blocks() for v in rb.succ(u) if rb.dominates(v, u)))
+        in_loop = set(x for x in rb.live_blocks() if any(x in rb.reachable_from(h) and h in rb.reachable_from(x) for h in heads))
+        offs = [l for l in rb.locals_named("offset") if 1 <= l <= rb.argc]
+        uses = []
+        for x in sorted(in_loop):
+            for s_ in rb.stmts(x):
+                if s_[0] == "=":
+                    for o in rvalue_operands(s_[2]):
+                        q = op_place(o)
+                        if q is not None and q[0] in offs:
+                            uses.append((x, s_[3] if len(s_) > 3 else None))
+                    for q in rvalue_places(s_[2]):
+                        if q[0] in offs:
+                            uses.append((x, s_[3] if len(s_) > 3 else None))
+            t = rb.term(x)
+            if t["t"] == "call":
+                for a in t["args"]:
+                    q = op_place(a)
+                    if q is not None and q[0] in offs:
+                        uses.append((x, t.get("line")))
+        ctx.floor("R6", "blocks of the placement loop", len(in_loop), 20)
+        ctx.ob("R6", "%s|the original `offset` is dead inside the placement loop" % rb.short, bool(offs) and not uses, rb.where(uses[0][1] if uses else None),
+               "reads of the parameter `offset` inside the loop: %s — `data` has been advanced past the bytes already read, so only "
+               "`start` names the stream position of its first byte; an overlap test computed from `offset` misses overlaps by "
+               "nread - offset bytes and stores overlapping segments (the reader then stalls for good)" % (["bb%d:L%s" % u for u in uses] or "none"))
     # ---------------------------------------------------------------- R4 / R5 readers
     GATE = "field:RecvBuf.nread Eq field:Segment.offset"
     tr = ctx.anchor("R4", RB + "::try_read")
